@@ -113,7 +113,14 @@ func cmdFunc(args []string) {
 			}
 			opts := SolveOpts{Timeout: time.Duration(*timeout) * time.Second, Seed: 1, WorkDir: wd, AllSolvers: *all}
 			results := solveFunc(fr, opts, *only)
+			nfail := 0
 			for _, r := range results {
+				if r.Status != "discharged" {
+					nfail++
+					if nfail > 12 {
+						continue
+					}
+				}
 				mark := "ok  "
 				if r.Status != "discharged" {
 					mark = "FAIL"
@@ -128,6 +135,9 @@ func cmdFunc(args []string) {
 						fmt.Printf("        script: %s\n", fn)
 					}
 				}
+			}
+			if nfail > 12 {
+				fmt.Printf("   ... %d failing obligations in total\n", nfail)
 			}
 			cs, _ := coverCheck(fr, opts, 0)
 			fmt.Printf("   cover (some return reachable under the assumptions): %s\n", cs)
